@@ -1,4 +1,5 @@
 """C14 - a schedule's duration is (end - start) modulo 24 hours (DESIGN.md 4/C14)"""
+from .common import frame_ok as _frame_ok
 import z3
 
 from pyvc.engine import Unit, Obligation, outcome_of, equiv_obligations, concretise
@@ -57,7 +58,7 @@ def units(tier):
         if ob[0] == "ret":
             obs.append(Obligation(f"{PROP}/SwitcherSchedule/duration_is_of_its_own_times", ctx, ip.equals(ob[1].attrs.get("duration"), want, ctx)))
             obs.append(Obligation(f"{PROP}/SwitcherSchedule/construction_assigns_nothing_else", ctx,
-                                  not ctx.ghost.heap_writes and not ctx.ghost.module_writes))
+                                  _frame_ok(ctx)[0]))
         return obs
     def parsed(ip, ctx):
         # a schedule listed by a device: its reported duration is that of its own reported start and end
